@@ -19,4 +19,16 @@ for d in seeded/*/; do
   echo "$id: expected $expect, got $got ($n violation lines) $status"
   echo "$out" | grep "^  obligation" | head -3
 done
+# own canaries (deliberate breaks of contracts added late; all expected caught)
+for d in canaries/*/; do
+  id=$(basename $d); prop=${id%%-*}
+  [ -n "$1" ] && [[ "$id" != $1* ]] && continue
+  if ! git -C /repo apply --check $PWD/$d/patch.diff 2>/dev/null; then echo "$id: patch no longer applies -- skipped"; continue; fi
+  git -C /repo apply $PWD/$d/patch.diff
+  out=$(./check $prop quick 2>&1); n=$(echo "$out" | grep -c '^VIOLATION')
+  git -C /repo checkout -- .
+  status=ok; [ "$n" -eq 0 ] && { status=MISMATCH; bad=1; }
+  echo "canary $id: expected caught, got $n violation lines $status"
+  echo "$out" | grep "^  obligation" | head -3
+done
 exit $bad
